@@ -9,9 +9,9 @@ theorem handleReplyStep_rsubs {cs cs' : CtxSt} {id : ReqId} {ok : Bool} {more : 
     (hs : handleReplyStep cs id ok = some (cs', more, o)) : cs'.rsubs = cs.rsubs ∧ cs'.rdom = cs.rdom ∧ cs'.objs = cs.objs ∧ cs'.peers = cs.peers := by
   unfold handleReplyStep at hs
   split at hs
-  · simp at hs
+  · simp only [Option.some.injEq, Prod.mk.injEq] at hs; obtain ⟨rfl, rfl, rfl⟩ := hs; exact ⟨rfl, rfl, rfl, rfl⟩
   · split at hs
-    · simp at hs
+    · simp only [Option.some.injEq, Prod.mk.injEq] at hs; obtain ⟨rfl, rfl, rfl⟩ := hs; exact ⟨rfl, rfl, rfl, rfl⟩
     · split at hs
       · simp only [Option.some.injEq, Prod.mk.injEq] at hs
         obtain ⟨rfl, -, -⟩ := hs
